@@ -30,11 +30,14 @@ state (`toc`, `tocTokens`) so that "same side outputs" is part of the statements
 (`Block.parseChunk` with the carried log, `Fenced.fencedLoopA` and `InlineX.runLoopX` with the carried stash and
 footnote bookkeeping); on `fresh` it is `convertX` (`Props/C11X.lean`, `C11X_fresh_is_convertX`).
 
+`convertSM on …` is the same with the `meta` extension (`on = true`; `Model/PipelineM.lean`): `MetaPreprocessor`
+sets `md.Meta` in every conversion that reaches the preprocessors (side output `metaData`), `reset()` empties it.
+
 A conversion whose outcome is not `ok` (the implementation raises part way through, or the document is outside
 the modelled domain) leaves the instance in a state that is not modelled: `valid := false`, and every further
 conversion answers `ood` until `reset()` — never a wrong answer.  `resetS` gives `fresh` whatever happened.
 -/
-import MdVerif.Model.PipelineX
+import MdVerif.Model.PipelineM
 
 namespace MdVerif.InstanceX
 open Py Pipeline PipelineX
@@ -55,6 +58,8 @@ structure MdSt where
   toc : Option Str := some []
   /-- side output `md.toc_tokens`, flat: (level, id, name) in document order -/
   tocTokens : List Toc.Tok := []
+  /-- side output `md.Meta` (with the `meta` extension), as `list(md.Meta.items())` -/
+  metaData : Meta.Dict := []
   deriving DecidableEq, Repr
 
 /-- `Markdown(extensions=…)`: a new instance (the constructor ends with `self.reset()`) -/
@@ -72,10 +77,9 @@ def MdSt.footnotes (st : MdSt) : List (Str × Str) := BlockExt.footnotesOf st.lo
 /-- `AbbrExtension.abbrs` -/
 def MdSt.abbrs (st : MdSt) : List (Str × Str) := BlockExt.abbrsOf st.log
 
-/-- `PipelineX.prepareX` with the carried stash: `FencedBlockPreprocessor` numbers its placeholders from
-    `html_counter` on -/
-def prepareS (x : Exts) (cfg : Cfg) (html : List Str) (src : Str) : FootnotesTree.R (Str × List Str) :=
-  let t := Normalize.normalize cfg.tab src
+/-- `PipelineM.prepareT` (the preprocessors after the normalisation, on the text `t`) with the carried stash:
+    `FencedBlockPreprocessor` numbers its placeholders from `html_counter` on -/
+def prepareST (x : Exts) (_cfg : Cfg) (html : List Str) (t : Str) : FootnotesTree.R (Str × List Str) :=
   if x.admonition && admNonAscii t then .ood else
   if x.fencedCode then
     if x.attrList && fencedHasConfig (t.length + 1) t 0 html.length then .ood else
@@ -83,6 +87,10 @@ def prepareS (x : Exts) (cfg : Cfg) (html : List Str) (src : Str) : FootnotesTre
     | .ok t' stash => .ok (Extract.extract t', stash)
     | _ => .oof
   else .ok (Extract.extract t, html)
+
+/-- `PipelineX.prepareX` with the carried stash -/
+def prepareS (x : Exts) (cfg : Cfg) (html : List Str) (src : Str) : FootnotesTree.R (Str × List Str) :=
+  prepareST x cfg html (Normalize.normalize cfg.tab src)
 
 /-- the side outputs of `TocTreeprocessor.run` on the tree `t` it is given: the tokens (before `nest_toc_tokens`) and
     `md.toc` = the serialised `div.toc` after all postprocessors.  (When `TocTree.run` answers, the first two matches
@@ -102,9 +110,10 @@ inductive TreeResultS
   | err
   | ood
 
-/-- `PipelineX.treeX` from the state `st` -/
-def treeS (x : Exts) (cfg : Cfg) (st : MdSt) (src : Str) : TreeResultS :=
-  match prepareS x cfg st.html src with
+/-- `PipelineM.treeP` (the block parser and the tree processors, given the result of the preprocessors) from the
+    state `st` -/
+def treePS (x : Exts) (cfg : Cfg) (st : MdSt) (prep : FootnotesTree.R (Str × List Str)) : TreeResultS :=
+  match prep with
   | .oof => .oof
   | .ood => .ood
   | .ok (text, stash) =>
@@ -156,7 +165,12 @@ def treeS (x : Exts) (cfg : Cfg) (st : MdSt) (src : Str) : TreeResultS :=
               match TreeProc.unescapeTree t with
               | none => .err
               | some u =>
-                .ok u { log := log, html := xs.st.html, fn := xs.fn, valid := true, toc := side.2, tocTokens := side.1 }
+                .ok u { log := log, html := xs.st.html, fn := xs.fn, valid := true, toc := side.2, tocTokens := side.1,
+                        metaData := st.metaData }
+
+/-- `PipelineX.treeX` from the state `st` -/
+def treeS (x : Exts) (cfg : Cfg) (st : MdSt) (src : Str) : TreeResultS :=
+  treePS x cfg st (prepareS x cfg st.html src)
 
 /-- the state after a conversion that did not return normally: not modelled until `reset()` -/
 def MdSt.invalid (st : MdSt) : MdSt := { st with valid := false }
@@ -177,6 +191,26 @@ def convertS (x : Exts) (cfg : Cfg) (st : MdSt) (src : Str) : Outcome × MdSt :=
       | .ok out => (.ok out, st')
       | o => (o, st.invalid)
 
+/-- `md.convert(src)` with the `meta` extension when `on` (`PipelineM.convertM`) on an instance in state `st`:
+    `MetaPreprocessor` (27) runs on the normalised lines, sets `md.Meta`, and hands the remaining lines on -/
+def convertSM (on : Bool) (x : Exts) (cfg : Cfg) (st : MdSt) (src : Str) : Outcome × MdSt :=
+  if !st.valid then (.ood, st)
+  else if Normalize.isBlankDoc src then (.ok [], st)
+  else
+    let r := PipelineM.metaStep on (Normalize.normalize cfg.tab src)
+    let stm : MdSt := if on then { st with metaData := r.2 } else st          -- `self.md.Meta = meta`
+    if r.1.contains '<' then (.ood, stm.invalid)
+    else if x.unsupported then (.ood, stm.invalid)
+    else
+      match treePS x cfg stm (prepareST x cfg stm.html r.1) with
+      | .oof => (.oof, stm.invalid)
+      | .err => (.err, stm.invalid)
+      | .ood => (.ood, stm.invalid)
+      | .ok u st' =>
+        match finishX x cfg st'.html (Ser.serialize cfg.fmt u) with
+        | .ok out => (.ok out, st')
+        | o => (o, stm.invalid)
+
 /-- what happens to an instance -/
 inductive Ev
   | convert (src : Str)
@@ -191,6 +225,20 @@ def applyEv (x : Exts) (cfg : Cfg) (st : MdSt) : Ev → MdSt
 def runS (x : Exts) (cfg : Cfg) (st : MdSt) : List Ev → MdSt
   | [] => st
   | e :: h => runS x cfg (applyEv x cfg st e) h
+
+def applyEvM (on : Bool) (x : Exts) (cfg : Cfg) (st : MdSt) : Ev → MdSt
+  | .convert s => (convertSM on x cfg st s).2
+  | .reset => resetS st
+
+/-- the state after a history, with the `meta` extension when `on` -/
+def runSM (on : Bool) (x : Exts) (cfg : Cfg) (st : MdSt) : List Ev → MdSt
+  | [] => st
+  | e :: h => runSM on x cfg (applyEvM on x cfg st e) h
+
+def outcomesM (on : Bool) (x : Exts) (cfg : Cfg) (st : MdSt) : List Ev → List Outcome
+  | [] => []
+  | .convert s :: h => (convertSM on x cfg st s).1 :: outcomesM on x cfg (convertSM on x cfg st s).2 h
+  | .reset :: h => outcomesM on x cfg (resetS st) h
 
 /-- the outcomes of the conversions of a history, in order -/
 def outcomes (x : Exts) (cfg : Cfg) (st : MdSt) : List Ev → List Outcome
